@@ -432,3 +432,7 @@ brk("c04-dispatch-hash-eddsa-flipped", ["C04"], (KMS, '            if algorithm 
 brk("c04-dispatch-ed-and", ["C04"], (KMS, "        elif isinstance(private_key, Ed25519PrivateKey) or isinstance(private_key, Ed448PrivateKey):\n            if algorithm", "        elif isinstance(private_key, Ed25519PrivateKey) and isinstance(private_key, Ed448PrivateKey):\n            if algorithm"))
 brk("c01-severable-guard-not-in", ["C01"], (ENV, "            if severable_element in self.SuitEnvelopeTagged.value.SuitEnvelope[suit_manifest].SuitManifest and hasattr(", "            if severable_element not in self.SuitEnvelopeTagged.value.SuitEnvelope[suit_manifest].SuitManifest and hasattr("))
 brk("c01-severable-guard-or", ["C01"], (ENV, "            if severable_element in self.SuitEnvelopeTagged.value.SuitEnvelope[suit_manifest].SuitManifest and hasattr(", "            if severable_element in self.SuitEnvelopeTagged.value.SuitEnvelope[suit_manifest].SuitManifest or hasattr("))
+
+# ------------------------------------------------------------------ C03-D5 whole item decoded
+brk("c03-unfix-trailing-bytes", ["C03"], (C, "        if trailing_data:\n", "        if False and trailing_data:\n"))
+brk("c03-loads-again", ["C03"], (C, "            with io.BytesIO(cbstr) as stream:\n                data = cbor2.load(stream)\n                trailing_data = len(cbstr) - stream.tell()\n", "            data = cbor2.loads(cbstr)\n            trailing_data = 0\n"))
